@@ -374,7 +374,8 @@ CHECKS["C15"] = dict(
                "TRY/ACK line protocol over a pipe (an ACK line is written only after Store returned).",
     rule="one generated case = 2-5 kill/restart cycles; non-trivial = a life ended by a kill with >=1 acknowledged store and stores in flight (or a self-kill right after "
          "a burst); distinct = distinct case value.",
-    legs=[dict(name="kill-points", test="^TestKillPoints$", quick=dict(n=16, procs=4, timeout=600), thorough=dict(n=800, procs=12, timeout=3000))],
+    legs=[dict(name="kill-points", test="^TestKillPoints$", quick=dict(n=16, procs=4, timeout=600), thorough=dict(n=800, procs=12, timeout=3000)),
+          dict(name="torn-log-delete", test="^TestTornLogDelete$", quick=dict(n=1, procs=1, timeout=300), thorough=dict(n=1, procs=1, timeout=600))],
 )
 
 CHECKS["C05"] = dict(
